@@ -9,6 +9,7 @@ import (
 	"errors"
 	"fmt"
 	"io"
+	"net"
 	"sync"
 	"sync/atomic"
 	"time"
@@ -35,26 +36,26 @@ type Outcome struct {
 
 // DialRecord is one Dial invocation.
 type DialRecord struct {
-	Seq        int
-	Transport  string
-	Addr       string
-	Peer       peer.ID
-	Start, End time.Time // virtual
-	Done       bool
-	Result     string // ok | fail | cancelled
-	CtxErr     string
+	Seq                     int
+	Transport               string
+	Addr                    string
+	Peer                    peer.ID
+	Start, End              time.Time // virtual
+	Done                    bool
+	Result                  string // ok | fail | cancelled
+	CtxErr                  string
 	ForceDirect, SimConnect bool
 }
 
 // Log collects dial records of all transports of a scenario.
 type Log struct {
-	mu       sync.Mutex
-	recs     []*DialRecord
-	inflight int
+	mu                 sync.Mutex
+	recs               []*DialRecord
+	inflight           int
 	MaxInflight        int
 	inflightPeer       map[peer.ID]int
 	MaxInflightPerPeer int
-	OnEvent  func(kind string, r *DialRecord) // called under the log's lock
+	OnEvent            func(kind string, r *DialRecord) // called under the log's lock
 }
 
 func NewLog() *Log { return &Log{inflightPeer: map[peer.ID]int{}} }
@@ -270,7 +271,7 @@ func (l *Listener) Close() error {
 		}
 	}
 }
-func (l *Listener) Addr() netAddr           { return netAddr(l.laddr.String()) }
+func (l *Listener) Addr() net.Addr          { return netAddr(l.laddr.String()) }
 func (l *Listener) Multiaddr() ma.Multiaddr { return l.laddr }
 
 type netAddr string
@@ -361,17 +362,19 @@ func (c *Conn) AcceptStream() (network.MuxedStream, error) {
 	}
 }
 
-func (c *Conn) As(any) bool                         { return false }
-func (c *Conn) LocalPeer() peer.ID                  { return c.t.Local }
-func (c *Conn) RemotePeer() peer.ID                 { return c.remote }
-func (c *Conn) RemotePublicKey() ic.PubKey          { return nil }
-func (c *Conn) ConnState() network.ConnectionState  { return network.ConnectionState{Transport: c.t.Name} }
-func (c *Conn) LocalMultiaddr() ma.Multiaddr        { return c.laddr }
-func (c *Conn) RemoteMultiaddr() ma.Multiaddr       { return c.raddr }
-func (c *Conn) Scope() network.ConnScope            { return &network.NullScope{} }
-func (c *Conn) Transport() transport.Transport      { return c.t }
-func (c *Conn) Stat() network.ConnStats             { return network.ConnStats{Limited: c.t.Limited} }
-func (c *Conn) TransportName() string               { return c.t.Name }
+func (c *Conn) As(any) bool                { return false }
+func (c *Conn) LocalPeer() peer.ID         { return c.t.Local }
+func (c *Conn) RemotePeer() peer.ID        { return c.remote }
+func (c *Conn) RemotePublicKey() ic.PubKey { return nil }
+func (c *Conn) ConnState() network.ConnectionState {
+	return network.ConnectionState{Transport: c.t.Name}
+}
+func (c *Conn) LocalMultiaddr() ma.Multiaddr   { return c.laddr }
+func (c *Conn) RemoteMultiaddr() ma.Multiaddr  { return c.raddr }
+func (c *Conn) Scope() network.ConnScope       { return &network.NullScope{} }
+func (c *Conn) Transport() transport.Transport { return c.t }
+func (c *Conn) Stat() network.ConnStats        { return network.ConnStats{Stats: network.Stats{Limited: c.t.Limited}} }
+func (c *Conn) TransportName() string          { return c.t.Name }
 
 // Stream is a fake muxed stream.
 type Stream struct {
@@ -381,7 +384,10 @@ type Stream struct {
 	ResetN  atomic.Int64
 }
 
-func (s *Stream) CloseRead() error                           { return s.Conn.CloseRead() }
-func (s *Stream) CloseWrite() error                          { return s.Conn.CloseWrite() }
-func (s *Stream) Reset() error                               { s.ResetN.Add(1); return s.Conn.Close() }
-func (s *Stream) ResetWithError(network.StreamErrorCode) error { s.ResetN.Add(1); return s.Conn.Close() }
+func (s *Stream) CloseRead() error  { return s.Conn.CloseRead() }
+func (s *Stream) CloseWrite() error { return s.Conn.CloseWrite() }
+func (s *Stream) Reset() error      { s.ResetN.Add(1); return s.Conn.Close() }
+func (s *Stream) ResetWithError(network.StreamErrorCode) error {
+	s.ResetN.Add(1)
+	return s.Conn.Close()
+}
